@@ -34,7 +34,8 @@ class _WF1:
 
 CLS = {
     'WorkchainFormat0': _WF0, 'WorkchainFormat1': _WF1, 'WcSplitMergeTimings': Cf.WcSplitMergeTimings, 'WorkchainDescr': Cf.WorkchainDescr,
-    'ConsensusConfig': Cf.ConsensusConfig,
+    'ConsensusConfig': Cf.ConsensusConfig, 'SuspendedAddressList': Cf.SuspendedAddressList, 'OracleBridgeParams': Cf.OracleBridgeParams,
+    'JettonBridgePrices': Cf.JettonBridgePrices, 'JettonBridgeParams': Cf.JettonBridgeParams,
     'StorageUsedShort': A.StorageUsedShort, 'StorageUsed': A.StorageUsed, 'StorageInfo': A.StorageInfo, 'AccStatusChange': T.AccStatusChange,
     'AccountStatus': A.AccountStatus, 'TrStoragePhase': T.TrStoragePhase, 'TrCreditPhase': T.TrCreditPhase, 'TrBouncePhase': T.TrBouncePhase,
     'ComputeSkipReason': T.ComputeSkipReason, 'TrComputePhase': T.TrComputePhase, 'TrActionPhase': T.TrActionPhase, 'SplitMergeInfo': T.SplitMergeInfo,
